@@ -52,12 +52,52 @@ def wrOp (w : Wr) (e : Env) (tok : String) : Option (String × Wr × Env) :=
   | ["av"] => some (s!"{w.size},{w.available},{w.buf.length}", w, e)
   | _ => some ("BADOP", w, e)
 
-def wrRun (w : Wr) (e : Env) : List String → List String → List String
+/-- "x1" / "x2" / "x3": an application send extension that ORs these RSV bits into EVERY frame it is shown. The
+    writer model knows only the wsflate.MessageState extension; for an all-frames extension the model's frames
+    (computed without it) get the bits OR-ed into the first byte of each frame header. Driver-level, not part
+    of the proved model (DESIGN §6.C06). -/
+def parseAll (x : String) : Nat := if x == "x1" then 1 else if x == "x2" then 2 else if x == "x3" then 3 else 0
+
+/-- lengths of the frames (header + payload) at the front of `bs`, as far as they are complete -/
+def frameLens (fuel : Nat) (bs : Bytes) : List Nat :=
+  match fuel with
+  | 0 => []
+  | fuel + 1 =>
+    match bs with
+    | _ :: b1 :: _ =>
+      let l7 := b1 % 128
+      let m := if b1 ≥ 128 then 4 else 0
+      let (hl, pl) :=
+        if l7 < 126 then (2 + m, l7)
+        else if l7 == 126 then (4 + m, (bs.getD 2 0) * 256 + bs.getD 3 0)
+        else (10 + m, ((bs.drop 2).take 8).foldl (fun a b => a * 256 + b) 0)
+      if bs.length < hl + pl then [] else (hl + pl) :: frameLens fuel (bs.drop (hl + pl))
+    | _ => []
+
+def orBits (bits : Nat) (ws : List Bytes) : List Bytes :=
+  if bits == 0 then ws else
+  let flat := ws.flatten
+  let lens := frameLens (flat.length + 1) flat
+  -- offsets of frame starts
+  let starts := (lens.foldl (fun (acc : List Nat × Nat) l => (acc.1 ++ [acc.2], acc.2 + l)) ([], 0)).1
+  let flat' := starts.foldl (fun (f : Bytes) i => f.set i ((f.getD i 0) ||| (bits * 16))) flat
+  -- cut again as the destination writes were
+  (ws.foldl (fun (acc : List Bytes × Bytes) w => (acc.1 ++ [acc.2.take w.length], acc.2.drop w.length)) ([], flat')).1
+
+def wrRunA (all : Nat) (w : Wr) (e : Env) : List String → List String → List String
   | [], acc => acc.reverse
   | t :: ts, acc =>
+    let all' := match t.splitOn ":" with
+      | ["se", x] => parseAll x
+      | ["rs", _, _] => 0
+      | _ => all
     match wrOp w e t with
     | none => (("PANIC@") :: acc).reverse
-    | some (r, w', e') => wrRun w' e' ts ((r ++ "@" ++ writesStr e.dst e'.dst) :: acc)
+    | some (r, w', e') =>
+      let ws := orBits all (e'.dst.writes.drop e.dst.writes.length)
+      wrRunA all' w' e' ts ((r ++ "@" ++ ",".intercalate (ws.map Bytes.toHex)) :: acc)
+
+def wrRun (w : Wr) (e : Env) (ts acc : List String) : List String := wrRunA 0 w e ts acc
 
 /-! ### the C06 oracle: judges the observed destination writes, independently of the model -/
 
@@ -88,6 +128,7 @@ structure OSt where
   inMsg : Bool := false      -- frames of an unfinished message have been sent
   noFlush : Bool := false
   failed : Bool := false
+  all : Nat := 0             -- RSV bits an application extension puts on every frame
   size : Option Nat := none  -- last Size() the harness reported (constructor, av, g, rs)
   deriving Repr
 
@@ -99,7 +140,7 @@ def oFrames (st : OSt) : List OFrame → Except String OSt
     if f.h.op != expOp then .error s!"opcode-{f.h.op}-expected-{expOp}"
     else if f.h.masked != st.client then .error "masked-iff-client"
     else
-      let expRsv := if !st.inMsg && st.ext == some true then 4 else 0
+      let expRsv := (if !st.inMsg && st.ext == some true then 4 else 0) ||| st.all
       if f.h.rsv != expRsv then .error s!"rsv-{f.h.rsv}-expected-{expRsv}"
       else
         let (m, ms) := if st.client then (st.masks.headD f.h.mask, st.masks.drop 1) else (Mask.zero, st.masks)
@@ -126,11 +167,11 @@ def oStep (st : OSt) (tok res : String) (writes : List Bytes) : Except String OS
       | ["w", p] => .ok { st with pending := st.pending ++ (hexOr p).take n }
       | ["wt", p] => .ok { st with pending := st.pending ++ (hexOr p).take n }
       | ["rf", _, hex, _] => .ok { st with pending := st.pending ++ (hexOr hex).take n }
-      | ["rs", sd, op] => .ok { st with client := sd == "C", op := natOr op, ext := none, pending := [], inMsg := false, noFlush := false, size := some n }
+      | ["rs", sd, op] => .ok { st with client := sd == "C", op := natOr op, ext := none, pending := [], inMsg := false, noFlush := false, size := some n, all := 0 }
       | ["av"] => .ok { st with size := some n }
       | ["g", _] => .ok { st with size := some n }
       | ["ro", op] => .ok { st with op := natOr op, pending := [], inMsg := false }
-      | ["se", x] => .ok { st with ext := parseExt x }
+      | ["se", x] => .ok { st with ext := parseExt x, all := parseAll x }
       | ["nf"] => .ok { st with noFlush := true }
       | _ => .ok st
     match st1 with
